@@ -30,6 +30,8 @@ public:
   static Phreeqc* engine(IPhreeqc* p) { return p->PhreeqcPtr; }
   static int simulation(IPhreeqc* p) { return p->PhreeqcPtr->simulation; }
   static int get_input_errors(IPhreeqc* p) { return p->PhreeqcPtr->get_input_errors(); }
+  static size_t istream_depth(IPhreeqc* p) { return p->istream_list.size(); }
+  static bool db_loaded(IPhreeqc* p) { return p->DatabaseLoaded; }
 };
 #include <fstream>
 #include <typeinfo>
@@ -81,6 +83,12 @@ extern "C" void __cxa_throw(void* obj, void* tinfo, void (*dest)(void*)) {
   real(obj, tinfo, dest);
   for (;;) {}
 }
+static void on_sample(int) {
+  static const char m[] = "\n#SAMPLE\n";
+  ssize_t r_ = write(2, m, sizeof m - 1); (void)r_;
+  void* bt[48]; int n = backtrace(bt, 48);
+  backtrace_symbols_fd(bt, n, 2);
+}
 static std::string throw_site() {
   std::string s = g_throw_type[0] ? g_throw_type : "?";
   char b[32];
@@ -124,6 +132,8 @@ struct Case {
   std::string id; int timeout = 20; std::string db;
   std::vector<std::vector<std::string> > sw, fn, pre, ops;
   std::string probe;
+  std::string reload;        // database of the reload (default: db)
+  bool reload_as_string = false;
 };
 
 static std::string mask_banner(std::string s) {
@@ -243,6 +253,7 @@ static void child_main(const Case& c) {
     fprintf(R, "OPR %zu ret=%d exc=%s nev=%zu firststop=%ld afterstop=%zu ierr=%d erron=%d errstron=%d trunc=%d throw=%s\n", k, r, exc.c_str(), A->nall,
             A->first_stop, A->after_stop, TestIPhreeqc::get_input_errors(A), (int)A->GetErrorOn(), (int)A->GetErrorStringOn(), (int)(A->nerrwarn > A->ew.size()),
             exc == "-" ? "-" : throw_site().c_str());
+    fprintf(R, "ISTK %zu %zu %d\n", k, TestIPhreeqc::istream_depth(A), (int)TestIPhreeqc::db_loaded(A));
     fprintf(R, "V %zu errstr %s\n", k, hx::hex(A->GetErrorString()).c_str());
     line_view("errlines", k, A->GetErrorStringLineCount(), [&](int i) { return std::string(A->GetErrorStringLine(i)); });
     fprintf(R, "V %zu warnstr %s\n", k, hx::hex(A->GetWarningString()).c_str());
@@ -255,14 +266,22 @@ static void child_main(const Case& c) {
       fprintf(R, "ACC %zu comps=%zu exc=%s\n", k, nc, ex2.c_str()); fflush(R); }
   }
   // reload + probe on the used instance, same on a new instance that is given only the survivors (switches, file names)
+  std::vector<std::string> lop;
+  {
+    std::string rdb = c.reload.empty() ? c.db : c.reload;
+    if (c.reload_as_string) {
+      std::ifstream f(hx::unhex(rdb).c_str(), std::ios::binary); std::ostringstream ss; ss << f.rdbuf();
+      lop = std::vector<std::string>{"loaddbstr", hx::hex(ss.str())};
+    } else lop = std::vector<std::string>{"loaddb", rdb};
+  }
   A->begin_call();
-  int rl = call_api(A, std::vector<std::string>{"loaddb", c.db}, exc);
-  fprintf(R, "RL %d %s %s\n", rl, exc.c_str(), hx::hex(A->GetErrorString()).c_str()); fflush(R);
+  int rl = call_api(A, lop, exc);
+  fprintf(R, "RL %d %s %s %zu\n", rl, exc.c_str(), hx::hex(A->GetErrorString()).c_str(), TestIPhreeqc::istream_depth(A)); fflush(R);
   FuzzIPhreeqc* B = new FuzzIPhreeqc();
   for (auto& s : c.sw) apply_switch(B, s[0], s[1] == "1");
   for (auto& s : c.fn) apply_name(B, s[0], hx::unhex(s[1]));
   B->begin_call();
-  int rb = call_api(B, std::vector<std::string>{"loaddb", c.db}, exc);
+  int rb = call_api(B, lop, exc);
   fprintf(R, "RLB %d %s\n", rb, exc.c_str()); fflush(R);
   if (rl == 0 && rb == 0 && !c.probe.empty()) {
     // file sinks off for the probe: both instances would write to the same user-set file names
@@ -308,6 +327,7 @@ static void run_case(const Case& c) {
     rl.rlim_cur = rl.rlim_max = (rlim_t)(c.timeout + 5); setrlimit(RLIMIT_CPU, &rl);
     rl.rlim_cur = rl.rlim_max = (rlim_t)512 << 20; setrlimit(RLIMIT_FSIZE, &rl);
     signal(SIGXFSZ, SIG_IGN);
+    signal(SIGUSR1, on_sample);
     g_child_fd = pfd[1];
     R = fdopen(pfd[1], "w");
     child_main(c);
@@ -323,7 +343,9 @@ static void run_case(const Case& c) {
   for (;;) {
     struct timeval t; gettimeofday(&t, 0);
     double el = (t.tv_sec - t0.tv_sec) + 1e-6 * (t.tv_usec - t0.tv_usec);
-    if (el > c.timeout) { timed_out = true; kill(pid, SIGKILL); break; }
+    if (el > c.timeout) {
+      // two stack samples 0.4 s apart, then kill: a hang is reported with where the engine was
+      timed_out = true; kill(pid, SIGUSR1); usleep(400000); kill(pid, SIGUSR1); usleep(200000); kill(pid, SIGKILL); break; }
     struct pollfd pf; pf.fd = pfd[0]; pf.events = POLLIN; pf.revents = 0;
     int pr = poll(&pf, 1, 200);
     if (pr > 0) {
@@ -359,6 +381,7 @@ int main() {
     else if (w[0] == "pre") c.pre.push_back(std::vector<std::string>(w.begin() + 1, w.end()));
     else if (w[0] == "op") c.ops.push_back(std::vector<std::string>(w.begin() + 1, w.end()));
     else if (w[0] == "probe") c.probe = w[1];
+    else if (w[0] == "reload") { c.reload = w[1]; c.reload_as_string = w.size() > 2 && w[2] == "str"; }
     else if (w[0] == "go") { run_case(c); have = false; }
   }
   fflush(stdout);
